@@ -6,6 +6,7 @@ from exactly_lib.execution.partial_execution.result import PartialExeResult
 from exactly_lib.execution.result import ResultBase, ActionToCheckOutcome, ExecutionFailureStatus
 from exactly_lib.tcfs.sds import SandboxDs
 from exactly_lib.test_case.test_case_status import TestCaseStatus
+from exactly_lib.util import verif_trace
 
 
 class FullExeResultStatus(Enum):
@@ -33,6 +34,11 @@ class FullExeResult(ResultBase):
                  failure_info: Optional[FailureInfo]):
         super().__init__(sds, action_to_check_outcome, failure_info)
         self.__status = status
+        verif_trace.emit('full-result', lambda: dict(
+            status=status.name,
+            step=(str(failure_info.phase_step) if failure_info is not None else None),
+            has_sds=sds is not None,
+            atc_exit_code=(action_to_check_outcome.exit_code if action_to_check_outcome is not None else None)))
 
     @property
     def status(self) -> FullExeResultStatus:
